@@ -538,3 +538,15 @@ pub fn carry_stress_plain(t: &mut Tape) -> (Vec<u8>, u64) {
     }
     (plain, best_resolved)
 }
+
+/// (tail seed, tail symbols, index into refmodel::codec::DIRECT_BIT_WATCH): programs,
+/// found by `lzsim dbwitness`, under which the decoder's range register holds that
+/// value right before it is halved for a direct bit of a long distance (about one
+/// direct bit in 2^26 does). Rebuilt by `rcsearch::build_db_witness`; the self-test
+/// checks that each one still reaches its value.
+pub const DIRECT_BIT_WITNESSES: [(u64, u32, u32); 4] = [
+    (0x9e377ab97f4a7b6f, 1134, 0), // range 0x01ffffff before a direct bit
+    (0x9e377db97f4a7ce6, 159, 1),  // range 0x01fffffe before a direct bit
+    (0x9e377bb97f4a7c25, 77, 2),   // range 0x02000000 before a direct bit
+    (0x9e3778b97f4a79d2, 596, 3),  // range 0x02000001 before a direct bit
+];
